@@ -498,6 +498,9 @@ func (w *World) checkState(ps *pairState, snap *fakepg.Snapshot, when string) {
 		return
 	}
 	tip := curs[len(curs)-1]
+	if ps.ref.Start > 0 && curs[0].num < int64(ps.ref.Start) {
+		w.violate("position-before-start", "pair %s recorded position %d before the configured start %d", ps.key, curs[0].num, ps.ref.Start)
+	}
 	if ps.ref.Stop > 0 && tip.num > int64(ps.ref.Stop) {
 		w.violate("beyond-stop", "pair %s recorded position %d beyond stop %d", ps.key, tip.num, ps.ref.Stop)
 	}
@@ -624,6 +627,24 @@ func (w *World) recordOutcome(ps *pairState, err error) {
 	case err != nil && nData > 0 && !ps.callLostAck:
 		w.violate("error-but-committed", "pair %s: Converge returned %q although a position-recording transaction committed during the call", ps.key, err.Error())
 	}
+	// start/stop (C06): once the stop block is recorded, every call reports
+	// completion (or a transient failure) and writes nothing.
+	if ps.ref.Stop > 0 && ps.curAtCallStart >= int64(ps.ref.Stop) {
+		if name != "done" && name != "error" {
+			w.violate("not-done-after-stop", "pair %s: position %d has reached stop %d but Converge returned %q", ps.key, ps.curAtCallStart, ps.ref.Stop, name)
+		}
+		for _, ci := range ps.callCommits {
+			if !ci.Empty() {
+				w.violate("write-after-stop", "pair %s: a transaction changed rows or positions although stop %d was already recorded", ps.key, ps.ref.Stop)
+				break
+			}
+		}
+	}
+	emptyRange := ps.curAtCallStart < 0 && ps.ref.Stop > 0 &&
+		((ps.ref.Start > 0 && ps.ref.Start-1 >= ps.ref.Stop) || (ps.ref.Start == 0 && ps.src.node.HeadNum() >= ps.ref.Stop+1))
+	if name == "done" && !emptyRange && (ps.ref.Stop == 0 || ps.curAtCallStart < int64(ps.ref.Stop)) {
+		w.violate("done-before-stop", "pair %s: Converge reported completion at position %d with stop %d", ps.key, ps.curAtCallStart, ps.ref.Stop)
+	}
 	ps.callCommits = nil
 	ps.callLostAck = false
 	es := ""
@@ -650,7 +671,8 @@ func (w *World) recordOutcome(ps *pairState, err error) {
 	}
 	if w.healed {
 		ps.callsHealed++
-		if ps.callsHealed > ps.healBound && !w.pairQuiet(ps) && !ps.stuckReported {
+		waitingForStart := ps.curNum < 0 && ps.ref.Start > 0 && int64(ps.ref.Start)-1 > int64(ps.src.node.HeadNum())
+		if ps.callsHealed > ps.healBound && !w.pairQuiet(ps) && !ps.stuckReported && !waitingForStart {
 			ps.stuckReported = true
 			w.violate("stuck", "pair %s made no quiescence within %d Converge calls after faults stopped (position %d, head %d, last outcome %s, last error %q)",
 				ps.key, ps.callsHealed, ps.curNum, ps.src.node.HeadNum(), name, ps.lastErr)
@@ -665,6 +687,9 @@ func (w *World) recordOutcome(ps *pairState, err error) {
 // that the source must have been asked for its head again: a cached head
 // serves at most maxreads reads (maxreads = number of integrations).
 func (w *World) pairQuiet(ps *pairState) bool {
+	if ps.idle {
+		return true
+	}
 	need := len(w.plan.Decls) + 2
 	if ps.inCall || ps.quietRun < need {
 		return false
@@ -704,6 +729,9 @@ func (w *World) finalChecks() {
 		want := w.target(ps)
 		if dep := w.depLimit(ps, snap); dep >= 0 && dep < want {
 			want = dep
+		}
+		if ps.idle {
+			continue
 		}
 		startsAfter := ps.origin >= 0 && ps.origin > want
 		if ps.curNum != want && !startsAfter && !(ps.origin < 0 && ps.curNum < 0) {
